@@ -109,26 +109,42 @@ def run(ctx: Context) -> None:
            f"scheme/host/port <- {got}")
     # ---- R5 host form
     _r5(ctx)
-    # ---- R6
+    # ---- R6  (decided by interpreting include_request_headers up to its return for a grid of inputs - independent of how the
+    #           Host value is computed: if/else, conditional expression, helper ...)
+    from ..norm import run_to
+
     inc = ctx.prog.func("httpcore._models", "include_request_headers")
-    ifs = [n for n in own_nodes(inc.node) if isinstance(n, ast.If) and "url.port" in norm(n.test)]
-    rep.floor("C19.R6", "port test in include_request_headers", len(ifs), 1)
-    for n in ifs:
-        rows = {}
-        for port in (None, 80, 8080, 443):
-            for default in (80, 443, None):
-                v = peval(n.test, {"url.port": port, "default_port": default})
-                want_plain = port is None or port == default
-                if v is UNKNOWN or bool(v) != want_plain:
-                    rows[f"port={port},default={default}"] = f"{v} (want {want_plain})"
-        plain = any(isinstance(s, ast.Assign) and norm(s.value) == "url.host" for s in n.body)
-        withport = any(isinstance(s, ast.Assign) and norm(s.value) == "b'%b:%d'%(url.host,url.port)" for s in n.orelse)
-        dsrc = [norm(a) for a in ctx.prov.expand(ast.Name(id="default_port", ctx=ast.Load()), inc, n)]
-        rep.ob("C19.R6", "shared|include_request_headers|host-port", not rows and plain and withport and dsrc == ["DEFAULT_PORTS.get(url.scheme)"], where(inc, n),
-               "Host is host alone iff port is None or the scheme's default, else host:port" if not rows and plain and withport else f"Host port rule deviates: {rows} plain={plain} withport={withport} default<-{dsrc}")
-    hostif = [n for n in own_nodes(inc.node) if isinstance(n, ast.If) and norm(n.test) == "b'host'notinheaders_set"]
-    rep.ob("C19.R6", "shared|include_request_headers|host-only-if-absent", bool(hostif) and any("[(b'Host',header_value)]+headers" == norm(s.value) for s in hostif[0].body if isinstance(s, ast.Assign)) if hostif else False,
-           where(inc), "Host is prepended only when the caller supplied none (case-insensitive)")
+    rets = [r for r in own_nodes(inc.node) if isinstance(r, ast.Return) and r.value is not None]
+    if len(rets) != 1:
+        raise AnalysisError("anchor vanished: single return of include_request_headers")
+    rows = {}
+    located = 0
+    for port in (None, 80, 8080, 443):
+        for default in (80, 443, None):
+            env: dict = {"headers": [(b"accept", b"*/*")], "content": None, "url.host": b"example.com", "url.port": port, "url.scheme": b"x",
+                         "DEFAULT_PORTS.get(url.scheme)": default, "DEFAULT_PORTS.get(url.scheme,None)": default}
+            if run_to(inc.node.body, rets[0], env) != "hit":
+                rows[f"port={port},default={default}"] = "not interpretable"
+                continue
+            got = peval(rets[0].value, env)
+            want_host = b"example.com" if (port is None or port == default) else b"example.com:%d" % port
+            want = [(b"Host", want_host), (b"accept", b"*/*")]
+            located += 1
+            if got is UNKNOWN or list(got) != want:
+                rows[f"port={port},default={default}"] = f"{got!r} (want {want!r})"
+    rep.floor("C19.R6", "port test in include_request_headers", 1 if located else 0, 1)
+    rep.ob("C19.R6", "shared|include_request_headers|host-port", not rows, where(inc),
+           "Host is host alone iff port is None or the scheme's default, else host:port (12 port/default combinations interpreted)" if not rows else f"Host port rule deviates: {rows}")
+    # a caller-supplied Host (any case) is kept and nothing is prepended
+    rows2 = {}
+    for given in (b"Host", b"host", b"HOST"):
+        env = {"headers": [(given, b"mine")], "content": None, "url.host": b"example.com", "url.port": 8080, "url.scheme": b"x", "DEFAULT_PORTS.get(url.scheme)": 80}
+        r = run_to(inc.node.body, rets[0], env)
+        got = peval(rets[0].value, env) if r == "hit" else UNKNOWN
+        if got is UNKNOWN or list(got) != [(given, b"mine")]:
+            rows2[given.decode()] = repr(got)
+    rep.ob("C19.R6", "shared|include_request_headers|host-only-if-absent", not rows2, where(inc),
+           "Host is prepended only when the caller supplied none (case-insensitive)" if not rows2 else f"a caller-supplied Host header is not respected: {rows2}")
     # ---- R7
     for modname, q in (("httpcore._models", "enforce_headers"), ("httpcore._models", "include_request_headers"), ("httpcore._async.http_proxy", "merge_headers"), ("httpcore._sync.http_proxy", "merge_headers")):
         f = ctx.prog.func(modname, q)
